@@ -48,8 +48,8 @@ inductive Tok
   | line                           -- a complete untagged line without blocking effect
   | cont (c : Nat)                 -- a complete continuation request (for command c)
   | tagged (c : Nat) (ok : Bool)   -- a complete tagged response
-  | lit (c : Nat) (n : Nat)        -- a literal header inside a FETCH response: message handed to c
-  | bytes (m : Nat)                -- m bytes of literal body (read by the consumer, not the reader)
+  | lit (c : Nat) (n got : Nat)    -- a literal header inside a FETCH response (message handed to c)
+                                   -- followed by got ≤ n delivered bytes of its body
   | fend                           -- the rest of a FETCH response: the message's items are closed
   | cutoff                         -- an incomplete response: the reader blocks inside it
   | early (c : Nat) (ok : Bool)    -- Legacy: a tagged response taken for complete before its CRLF
@@ -108,7 +108,7 @@ structure St where
   greeted : Bool := false
   /-- in-flight FETCH message handed to its command: `some q`, q = a literal item is queued -/
   flight : Option Bool := none
-  /-- bytes of the open literal not yet read by the consumer -/
+  /-- bytes of the open literal that were not delivered (0: the consumer can read it to its end) -/
   need : Nat := 0
   /-- the literal's `done` channel was closed -/
   litDone : Bool := false
@@ -175,12 +175,11 @@ def rTok (s : St) : Option St :=
     match cmdAt? s c with
     | some x => if pendingCmd x then some (setCmd { s with inbox := r } c (completeOne x ok)) else none
     | none => none
-  | .lit c n :: r =>
+  | .lit c n got :: r =>
     match cmdAt? s c with
-    | some x => if pendingCmd x then some { s with inbox := r, flight := some true, need := n, reader := .litWait, litDone := false } else none
+    | some x => if pendingCmd x then some { s with inbox := r, flight := some true, need := n - got, reader := .litWait, litDone := false } else none
     | none => none
   | .fend :: r => some { s with inbox := r, flight := none }
-  | .bytes _ :: _ => none
   | .cutoff :: _ => none
   | [] => none
 
@@ -201,7 +200,7 @@ def rResume (s : St) : Option St :=
 
 def record (s : St) (c : Cls) : St :=
   match s.prog with
-  | [] => s
+  | [] => { s with pos := .ready }
   | _ :: r => { s with prog := r, out := s.out ++ [c], pos := .ready }
 
 /-- issue command c (`beginCommand` … `flush`): on a closed connection the write fails and
@@ -311,14 +310,10 @@ def cLit (s : St) : Option St :=
   match s.pos with
   | .lit c w =>
     if s.need = 0 then some { s with litDone := true, pos := .items c w }       -- io.EOF of the LimitReader
-    else match s.inbox with
-      | .bytes m :: r => some { s with inbox := r, need := s.need - m }
-      | [] =>
-        match s.tail with
-        | .stall => none
-        | .eof => some { s with litDone := true, pos := .items c w }             -- truncated literal, io.EOF
-        | .err => some { s with litDone := !s.legacyLit, pos := .items c w }     -- the repaired Read signals on any error
-      | _ => none
+    else match s.tail with                                                       -- the rest never arrives
+      | .stall => none
+      | .eof => some { s with litDone := true, pos := .items c w }               -- truncated literal, io.EOF
+      | .err => some { s with litDone := !s.legacyLit, pos := .items c w }       -- the repaired Read signals on any error
   | _ => none
 
 /-- a continuation request is answered or cancelled -/
@@ -409,14 +404,12 @@ def fetchToks (c : Nat) : List Seg → Nat → List Tok
   | [], _ => [.cutoff]
   | .txt n :: r, got => if got < n then [.cutoff] else fetchToks c r (got - n)
   | .lit n :: r, got =>
-    if got < n then (if got = 0 then [.lit c n] else [.lit c n, .bytes got])
-    else if n = 0 then .lit c n :: fetchToks c r got
-    else .lit c n :: .bytes n :: fetchToks c r (got - n)
+    if got < n then [.lit c n got] else .lit c n n :: fetchToks c r (got - n)
 
 def fetchFull (c : Nat) : List Seg → List Tok
   | [] => [.fend]
   | .txt _ :: r => fetchFull c r
-  | .lit n :: r => if n = 0 then .lit c n :: fetchFull c r else .lit c n :: .bytes n :: fetchFull c r
+  | .lit n :: r => .lit c n n :: fetchFull c r
 
 /-- tokens of one completely delivered item -/
 def fullToks : Item → List Tok
